@@ -32,7 +32,10 @@ def h_fidelity(S, B):
     if nargs >= 2:
         args.append(S.str("arg_str", 3))
     exc = cls(*args)
-    nattr = S.choice("n_attributes", [0, 1, 2])
+    nattr = S.choice("n_attributes", [0, 1, 2, 3])
+    if nattr >= 3:
+        exc.add_note("see ticket 7")          # python stores notes in the attribute __notes__ of the instance
+        vars(exc)["__origin"] = "unit-3"      # a custom attribute whose name starts with two underscores
     if nattr >= 1:
         exc.code = S.int("attr_int", -1000, 1000)
     if nattr >= 2:
